@@ -7,8 +7,9 @@ package main
 
 import (
 	"fmt"
-	"math/rand"
 	"go/token"
+	"math/rand"
+	"os"
 	"sort"
 	"strings"
 	"sync"
@@ -20,6 +21,7 @@ import (
 type pathDead struct{ why string }  // infeasible or assumed away
 type pathAbort struct{ why string } // unsupported construct / limit: inconclusive
 type pathKill struct{}              // goroutine told to die at path end
+type specAbort struct{ why string } // speculative execution of a branch arm hit a side effect
 
 type knownTag struct {
 	id   string
@@ -47,6 +49,7 @@ type PathResult struct {
 	NInstr     int64
 	Decisions  int
 	Sample     *ObligationSample
+	EvalSat    int
 	Witness    bool
 }
 
@@ -74,15 +77,19 @@ type Machine struct {
 	model  map[string]uint64 // a model of pc, or nil
 	work   [][]int64
 
-	nInstr    int64
-	maxInstr  int64
-	funcs     map[*ssa.Function]bool
-	inputs    map[string]*Term
-	params    map[string]int64
-	tags      []knownTag
-	ownPanics bool
-	mapOrder  bool
-	res       PathResult
+	nInstr       int64
+	maxInstr     int64
+	funcs        map[*ssa.Function]bool
+	inputs       map[string]*Term
+	params       map[string]int64
+	tags         []knownTag
+	ownPanics    bool
+	spec         int // >0 while an arm of a symbolic branch runs speculatively for merging
+	merges       int
+	noMerge      bool
+	ownDeadlocks bool
+	mapOrder     bool
+	res          PathResult
 
 	sched *Sched
 	// environment
@@ -125,6 +132,9 @@ func (m *Machine) alt(d int64) {
 }
 
 func (m *Machine) addPC(c *Term) {
+	if m.spec > 0 {
+		panic(specAbort{"assumption"})
+	}
 	if c.IsConst() {
 		if c.c == 0 {
 			panic(pathDead{"assumption is false"})
@@ -180,6 +190,9 @@ func (m *Machine) branch(c *Term) bool {
 		return v
 	}
 	st := m.st()
+	if m.spec > 0 {
+		panic(specAbort{"symbolic branch"})
+	}
 	if m.replaying() {
 		d := m.nextPrefix()
 		if d == 1 {
@@ -254,6 +267,9 @@ func (m *Machine) concretize(t *Term, what string) uint64 {
 	if t.IsConst() {
 		return t.c
 	}
+	if m.spec > 0 {
+		panic(specAbort{"concretize"})
+	}
 	st := m.st()
 	if m.replaying() {
 		d := uint64(m.nextPrefix())
@@ -307,6 +323,9 @@ func (m *Machine) concretize(t *Term, what string) uint64 {
 func (m *Machine) choose(n int) int {
 	if n <= 1 {
 		return 0
+	}
+	if m.spec > 0 {
+		panic(specAbort{"choice"})
 	}
 	if m.replaying() {
 		return int(m.nextPrefix())
@@ -362,13 +381,23 @@ func (m *Machine) checkAssert(label string, c *Term, pos string) {
 	st := m.st()
 	start := time.Now()
 	result := "unsat"
+	c = m.simplify(c)
 	if c.IsTrue() {
 		m.res.Proved++
 		return
 	}
 	nc := st.Not(c)
 	excl := m.exclusion()
-	r, mod := m.query(nc, st.Not(excl))
+	r, mod := "", map[string]uint64(nil)
+	// Cheap counterexample search first: evaluate the claim under models of
+	// the path condition (the cached one, then a few diversified ones when
+	// floating point is involved, where the solver is slow to answer sat).
+	if cex := m.searchByEvaluation(c, excl); cex != nil {
+		r, mod = "sat", cex
+		m.res.EvalSat++
+	} else {
+		r, mod = m.query(nc, st.Not(excl))
+	}
 	switch r {
 	case "sat":
 		result = "sat"
@@ -398,6 +427,9 @@ func (m *Machine) checkAssert(label string, c *Term, pos string) {
 			m.res.Proved++
 		}
 	}
+	if result == "unknown" && os.Getenv("GOSYM_DEBUG") != "" {
+		fmt.Fprintf(logw, "UNKNOWN %s %s params=%v\n   claim=%s\n", m.h.Name, label, m.params, c.String())
+	}
 	if m.res.Sample == nil || (result == "unsat" && m.res.Sample.Result != "unsat") {
 		m.res.Sample = &ObligationSample{Harness: m.h.Name, Label: label, Params: m.paramsCopy(),
 			PCSize: len(m.pc), Claim: c.String(), Result: result, Ms: time.Since(start).Milliseconds()}
@@ -406,8 +438,85 @@ func (m *Machine) checkAssert(label string, c *Term, pos string) {
 	if c.IsFalse() {
 		panic(pathDead{"assertion is false on the whole path"})
 	}
+	if result == "unknown" || (c.fp && result != "unsat") {
+		// do not carry an undecided or refuted floating-point claim in the
+		// path condition: every later query would have to solve it
+		return
+	}
 	m.model = nil
 	m.addPC(c)
+}
+
+// searchByEvaluation looks for a model of the path condition under which
+// the claim is false and no open known-finding tag holds.
+func (m *Machine) searchByEvaluation(c, excl *Term) map[string]uint64 {
+	st := m.st()
+	falsifies := func(mod map[string]uint64) bool {
+		cache := map[*Term]*Term{}
+		if !st.Eval(c, mod, cache).IsFalse() {
+			return false
+		}
+		return st.Eval(excl, mod, cache).IsFalse()
+	}
+	if m.model == nil && c.fp {
+		if r, mod := m.query(); r == "sat" {
+			m.model = mod
+		}
+	}
+	if m.model != nil && falsifies(m.model) {
+		return m.model
+	}
+	if !c.fp {
+		return nil
+	}
+	// diversified models: pin a few low bits of each input the claim reads
+	vars := collectVars([]*Term{c})
+	for try := 0; try < 6; try++ {
+		var extra []*Term
+		for _, v := range vars {
+			if v.kind != KBV {
+				continue
+			}
+			nb := 5
+			if v.w < nb {
+				nb = v.w
+			}
+			pat := m.evalRng().Uint64()
+			extra = append(extra, st.Eq(st.Extract(v, nb-1, 0), BV(pat, nb)))
+		}
+		// only path-condition conjuncts without floating point, so the query is cheap
+		as := make([]*Term, 0, len(m.pc)+len(extra))
+		for _, p := range m.pc {
+			if !p.fp {
+				as = append(as, p)
+			}
+		}
+		as = append(as, extra...)
+		r, mod := m.w.sv.Check(as, true)
+		if r != "sat" {
+			continue
+		}
+		// the model must satisfy the whole path condition
+		ok := true
+		cache := map[*Term]*Term{}
+		for _, p := range m.pc {
+			if !st.Eval(p, mod, cache).IsTrue() {
+				ok = false
+				break
+			}
+		}
+		if ok && falsifies(mod) {
+			return mod
+		}
+	}
+	return nil
+}
+
+func (m *Machine) evalRng() *rand.Rand {
+	if m.rng == nil {
+		m.rng = rand.New(rand.NewSource(m.p.seed + int64(len(m.taken))*7919))
+	}
+	return m.rng
 }
 
 // reportEnd classifies a path that ended in a panic, deadlock or hang.
@@ -626,6 +735,9 @@ func (m *Machine) samplePath() {
 	if m.res.Outcome != "ok" && m.res.Outcome != "panic" {
 		return
 	}
+	if len(m.res.Violations) > 0 || m.res.Unknown > 0 {
+		return // conformance compares fully decided, violation-free paths only
+	}
 	if !m.p.wantSample(m.h.Name) {
 		return
 	}
@@ -639,4 +751,49 @@ func (m *Machine) samplePath() {
 	rc := replayCase{Harness: m.h.Name, Inputs: m.inputsFrom(m.model), Params: m.paramsCopy(), Tier: m.p.tier,
 		Expect: m.res.Outcome, Detail: m.res.Detail, Trace: append([]string(nil), m.trace...)}
 	m.p.addSample(rc)
+}
+
+// simplify rewrites t using what the path condition already fixes: every
+// boolean subterm that is asserted (or refuted) on this path becomes a
+// constant and the constructors re-fold.  Keeps merged ite terms from hiding
+// syntactic equalities.
+func (m *Machine) simplify(t *Term) *Term {
+	if len(m.pcKnow) == 0 {
+		return t
+	}
+	cache := map[*Term]*Term{}
+	var rec func(x *Term) *Term
+	rec = func(x *Term) *Term {
+		if x.op == OpConst || x.op == OpVar && x.kind != KBool {
+			return x
+		}
+		if r, ok := cache[x]; ok {
+			return r
+		}
+		if x.kind == KBool {
+			if v, ok := m.pcKnow[x]; ok {
+				r := Bool(v)
+				cache[x] = r
+				return r
+			}
+		}
+		if x.op == OpVar {
+			return x
+		}
+		args := make([]*Term, len(x.a))
+		changed := false
+		for i, a := range x.a {
+			args[i] = rec(a)
+			if args[i] != a {
+				changed = true
+			}
+		}
+		r := x
+		if changed {
+			r = m.st().rebuild(x, args)
+		}
+		cache[x] = r
+		return r
+	}
+	return rec(t)
 }
